@@ -919,6 +919,9 @@ class SQLCache(CacheMixin):
             metadata = json.loads(metadata)
             if metadata.get("status") != "ready":
                 return None
+            if data is None:
+                # a row written by store_metadata only: there is no value to serve
+                return None
         except:
             return None
         try:
